@@ -17,7 +17,7 @@ PID = "C03"
 LEVEL = "exploration"
 BUDGET = {"quick": 200000, "thorough": 4000000}
 RULE = (
-    "each run draws 1..2 scenarios (tool of C01 or aggregation of C02 incl. groupby-free parameters, items with "
+    "each run draws 1..2 scenarios (tool of C01 incl. groupby, or aggregation of C02; one run in six an ExitStack with 1..4 pushed exit callables / callbacks instead; items with "
     "ties / unorderable / unhashable members) and executes each twice in one simulated loop: baseline (lists + "
     "def callables) vs flavoured (each iterable parameter independently list / tuple / __getitem__ sequence / "
     "one-shot iterator / async generator / class-based async iterator with or without aclose / async iterable / "
@@ -30,11 +30,11 @@ RULE = (
 COMPONENTS = COMPONENTS_BASE
 ASSUMPTIONS = [
     "both executions share the item objects; derived values are compared structurally",
-    "exit callbacks of ExitStack (sync vs async kinds) are compared against the nested statement in C14; "
-    "groupby key flavours in C16; asynctools shapes in C19",
+    "one run in six exercises ExitStack.push/callback with exit callables of all five flavours; groupby key flavours "
+    "are also covered by the tool table (groupby is one of the tools); asynctools shapes in C19",
 ]
 PROBES = ("mixed_flavours_in_one_call", "async_callable", "partial_or_object_callable", "class_based_source",
-          "error_outcome", "aggregation", "tool")
+          "error_outcome", "aggregation", "tool", "exit_callbacks")
 NAMES = TOOL_NAMES + AGG_NAMES
 
 
@@ -51,8 +51,222 @@ def type_ok(obj, is_agg):
     return hasattr(obj, "__anext__") and hasattr(obj, "__aiter__")
 
 
+# --------------------------------------------------------------------------- exit callbacks of ExitStack
+EXIT_FLAVOURS = ("def", "async", "partial_async", "obj_coro", "obj_awaitable")
+
+
+class _StackError(Exception):
+    def __init__(self, tag):
+        Exception.__init__(self, tag)
+        self.tag = tag
+
+
+class _HandAw:
+    """Awaitable that is not a coroutine: suspends n times, then runs the deferred call"""
+
+    def __init__(self, sim, n, call):
+        self.sim, self.n, self.call = sim, n, call
+
+    def __await__(self):
+        from ..loop import PAUSE
+        for _ in range(self.n):
+            yield from self.sim.suspend(PAUSE, None, "exit").__await__()
+        return self.call()
+
+
+def gen_stack(ch):
+    sc = {"entries": [], "block_raises": ch.chance(1, 2)}
+    for i in range(ch.between(1, 4)):
+        sc["entries"].append({"name": "e%d" % i, "method": ("push", "callback")[ch.draw(2)],
+                              "flavour": EXIT_FLAVOURS[ch.draw(len(EXIT_FLAVOURS))],
+                              "behave": ("falsy", "truthy", "raise")[ch.weighted([4, 2, 1])], "susp": ch.draw(3)})
+    return sc
+
+
+async def run_stack(sc, sim, flavoured, log, res):
+    import functools
+    from ..loop import PAUSE
+    L = lib()
+
+    def logic(e, exc, args):
+        log.append(("exit", e["name"], getattr(exc, "tag", None) if exc is not None else None, args))
+        if e["behave"] == "truthy":
+            return True
+        if e["behave"] == "raise":
+            raise _StackError(("exit", e["name"]))
+        return False
+
+    def make(e):
+        fl = e["flavour"] if flavoured else "def"
+        is_cb = e["method"] == "callback"
+
+        def plain(*args):
+            return logic(e, None if is_cb else args[1], args if is_cb else ())
+
+        async def coro(*args):
+            for _ in range(e["susp"]):
+                await sim.suspend(PAUSE, None, "exit")
+            return logic(e, None if is_cb else args[1], args if is_cb else ())
+
+        class Obj:
+            def __call__(self, *args):
+                return coro(*args)
+
+        class ObjAw:
+            def __call__(self, *args):
+                return _HandAw(sim, e["susp"], lambda: logic(e, None if is_cb else args[1], args if is_cb else ()))
+
+        if fl == "def":
+            return plain
+        if fl == "async":
+            return coro
+        if fl == "partial_async":
+            async def coro2(_marker, *args):
+                return await coro(*args)
+            return functools.partial(coro2, None)
+        if fl == "obj_coro":
+            return Obj()
+        return ObjAw()
+
+    try:
+        stack = L.ExitStack()
+        res["type_ok"] = hasattr(stack, "__aenter__") and hasattr(stack, "__aexit__")
+        async with stack:
+            for e in sc["entries"]:
+                fn = make(e)
+                if e["method"] == "push":
+                    back = stack.push(fn)
+                else:
+                    back = stack.callback(fn, e["name"], 7)
+                if back is not fn:
+                    res["type_ok"] = False
+            log.append(("body",))
+            if sc["block_raises"]:
+                raise _StackError("block")
+        res["end"] = ("completed",)
+    except _StackError as err:
+        res["end"] = ("raised", err.tag)
+
+
 def execute(st, ctx):
     out = Outcome()
+    ch = st.scenario
+    sel = ch.draw(12)
+    if sel < 2:
+        return execute_stack(st, ctx, out)
+    if sel == 2:
+        return execute_sync(st, ctx, out)
+    return execute_tools(st, ctx, out)
+
+
+def execute_sync(st, ctx, out):
+    """asynctools.sync: the same callable in different flavours - including one that answers with an awaitable
+    on some calls only - called repeatedly through one wrapper gives the same results"""
+    from ..loop import PAUSE
+    ch = st.scenario
+    pattern = [ch.draw(2) for _ in range(ch.between(2, 5))]
+    susp = ch.draw(3)
+    sim = new_sim(st)
+    L = lib()
+    results = {}
+
+    def value(k):
+        return ("r", k)
+
+    async def coro(k):
+        for _ in range(susp):
+            await sim.suspend(PAUSE, None, "fn")
+        return value(k)
+
+    def plain(k):
+        return value(k)
+
+    def sometimes(k):
+        return coro(k) if pattern[k % len(pattern)] else value(k)
+
+    class Obj:
+        def __call__(self, k):
+            return coro(k)
+
+    flavours = {"def": plain, "sometimes_awaitable": sometimes, "callable_object": Obj(), "async_def": coro}
+
+    async def run(name, fn):
+        wrapped = L.sync(fn)
+        got = []
+        for k in range(len(pattern)):
+            aw = wrapped(k)
+            if not hasattr(aw, "__await__"):
+                got.append(("plain_value", repr(aw)))
+                continue
+            try:
+                got.append(("ok", await aw))
+            except Exception as err:  # noqa
+                got.append(("raised", type(err).__name__))
+        results[name] = got
+
+    for name, fn in flavours.items():
+        sim.spawn(run(name, fn))
+    run_sim(sim)
+    if sim.deadlock:
+        out.violate("C03.deadlock", ("sync",), {})
+    elif not sim.capped:
+        base = results.get("def")
+        for name in flavours:
+            if results.get(name) != base:
+                out.violate("C03.result_depends_on_flavour", ("sync", name),
+                            {"pattern": pattern, "baseline": repr(base), name: repr(results.get(name))})
+                break
+    out.probes["async_callable"] = 1
+    out.nontrivial = len(set(pattern)) == 2
+    out.shape = ("sync", tuple(pattern), susp)
+    if ctx.want_sample:
+        out.sample = {"kind": "asynctools.sync flavours", "pattern": pattern, "results": {k: repr(v) for k, v in results.items()}}
+    if ctx.want_log:
+        out.log = [sorted((k, repr(v)) for k, v in results.items()), sim.trace]
+    return finish_outcome(out, st, sim, ctx)
+
+
+def execute_stack(st, ctx, out):
+    ch = st.scenario
+    sc = gen_stack(ch)
+    sim = new_sim(st)
+    logs = ([], [])
+    ress = ({}, {})
+    sim.spawn(run_stack(sc, sim, False, logs[0], ress[0]))
+    sim.spawn(run_stack(sc, sim, True, logs[1], ress[1]))
+    run_sim(sim)
+
+    def describe():
+        return {"kind": "ExitStack exit callbacks", "scenario": sc,
+                "baseline": {"log": [repr(e) for e in logs[0]], "end": repr(ress[0].get("end"))},
+                "flavoured": {"log": [repr(e) for e in logs[1]], "end": repr(ress[1].get("end"))}}
+
+    if sim.deadlock:
+        out.violate("C03.deadlock", ("ExitStack",), describe())
+    elif not sim.capped:
+        if "end" not in ress[0] or "end" not in ress[1]:
+            errs = [repr(t.error) for t in sim.tasks]
+            out.violate("C03.did_not_finish", ("ExitStack",), dict(describe(), errors=errs))
+        elif logs[0] != logs[1] or ress[0]["end"] != ress[1]["end"]:
+            out.violate("C03.result_depends_on_flavour", ("ExitStack", "exit_callbacks"), describe())
+        if ress[1].get("type_ok") is False:
+            out.violate("C03.returns_plain_value", ("ExitStack", "flavoured"), describe())
+    fl = {e["flavour"] for e in sc["entries"]}
+    if fl - {"def"}:
+        out.probes["async_callable"] = 1
+    if fl & {"partial_async", "obj_coro", "obj_awaitable"}:
+        out.probes["partial_or_object_callable"] = 1
+    out.probes["exit_callbacks"] = 1
+    out.nontrivial = bool(fl - {"def"})
+    out.shape = ("stack", tuple(tuple(sorted(e.items())) for e in sc["entries"]), sc["block_raises"])
+    if ctx.want_sample:
+        out.sample = describe()
+    if ctx.want_log:
+        out.log = [logs, repr(ress), sim.trace]
+    return finish_outcome(out, st, sim, ctx)
+
+
+def execute_tools(st, ctx, out):
     ch = st.scenario
     cfg = draw_cfg(ch)
     sim = new_sim(st)
